@@ -465,8 +465,10 @@ def meta(ctx):
         "harness/c/mc_harness.c (fake clock, fake return slots), vf/mch.py, vf/mcgen.py, independent .dat decoder in props/c02.py",
     ]
     ctx.assume = [
-        "theorems cover the plain configuration (no -F/-N/-T/-C), nesting within --max-stack; stack-overflow "
-        "dropping (--max-stack) and zero-duration calls are covered by the correspondence only",
+        "exact equality with the history is proved for the plain configuration (no -F/-N/-T/-C) within --max-stack; "
+        "for every switch-free filtered configuration the embedded-sub-history theorem applies, for every "
+        "configuration at all the append-only theorem; stack-overflow dropping (--max-stack) under -t and the "
+        "-fast/-single variants are covered by the correspondence only",
         "clock readings < 2^64, non-decreasing inside a call; thread interleaving does not matter because all "
         "hook state is per-thread (checked by the interleaved-thread cases, not proved)",
         "buffer hand-off to the recorder is C03's subject: here the bytes in the shm buffers are compared",
